@@ -107,3 +107,5 @@ pub use crate::state::{
 
 mod macros;
 mod state;
+#[cfg(cadence_verif)]
+mod verif_shim;
